@@ -56,18 +56,7 @@ func runC01(p *Program, r *Result) {
 	r.Check(okOrder, dec.String(), "call:Unwrap:receiver", r.pos(uw), "identities[i] in an ascending range loop over all identities",
 		"Unwrap is invoked on "+recv+", not on identities[i] of an ascending loop over the identities parameter")
 	// R01.1b: what is offered
-	stArg := short(tb.Term(uw.Common().Args[0]).String())
-	want := specRecipe(r, "Decrypt.Unwrap.stanzas")
-	okSt := stArg == want
-	if okSt {
-		// the loop building it must be complete before the identities loop
-		bl := loopOver(dec, func(v ssa.Value) bool {
-			fa, ok := isLoadOfField(v, "Recipients")
-			return ok && fa != nil
-		})
-		okSt = len(bl) == 1 && p.completedAt(bl[0], uw.Block())
-	}
-	r.Check(okSt, dec.String(), "call:Unwrap:stanzas", r.pos(uw), "all header stanzas, in order", "identities are offered "+stArg+"\n   want "+want+" built by a complete loop")
+	checkAllStanzasOffered(p, r, dec, uw)
 
 	// ---- R01.9
 	r.Rule("R01.9", "every stanza of every recipient is written to the header, in order", 1)
@@ -96,7 +85,16 @@ func runC01(p *Program, r *Result) {
 		if len(start) == 0 {
 			r.Unk(dec.String(), "after-success", "", "no branch on err == nil of the Unwrap result found")
 		} else {
-			vis := p.Reach(start, nil)
+			// the error just tested is nil from here on: a second test of it takes that side too
+			known := map[ssa.Value]bool{}
+			for _, b := range dec.Blocks {
+				for _, in := range b.Instrs {
+					if ex, ok := in.(*ssa.Extract); ok && ex.Tuple == uw.Value() && isErrorType(ex.Type()) {
+						known[ex] = true
+					}
+				}
+			}
+			vis := p.ReachAssuming(start, nil, known)
 			r.Check(!vis[uw.(ssa.Instruction)], dec.String(), "after-success", r.pos(uw), "from the err == nil edge no path reaches Unwrap again",
 				"after an identity returned a nil error another Unwrap call is still reachable (later identities would be consulted, and could override the key)")
 		}
@@ -133,6 +131,68 @@ func runC01(p *Program, r *Result) {
 	// ---- recipes
 	r.Rule("R01.5-8", "wrap/unwrap, payload key, STREAM and armor recipes of both halves equal the specification table", 40)
 	checkSites(p, r, recipeSites, "C01")
+}
+
+// checkAllStanzasOffered (R01.1b, shared with C10): the slice handed to Identity.Unwrap holds every
+// stanza of the parsed header, in order — built by a loop over all of hdr.Recipients that has run
+// to completion and appends one stanza on every iteration.
+func checkAllStanzasOffered(p *Program, r *Result, dec *ssa.Function, uw ssa.CallInstruction) {
+	tb := p.TB(dec)
+	stArg := short(tb.Term(uw.Common().Args[0]).String())
+	want := specRecipe(r, "Decrypt.Unwrap.stanzas")
+	okSt := stArg == want
+	why := ""
+	if okSt {
+		// the loop building it must be complete before the identities loop
+		bl := loopOver(dec, func(v ssa.Value) bool {
+			fa, ok := isLoadOfField(v, "Recipients")
+			return ok && fa != nil
+		})
+		okSt = len(bl) == 1 && p.completedAt(bl[0], uw.Block())
+		// and it must append one stanza on every iteration: a stanza that is passed over (a
+		// `continue` in front of the append) would be hidden from the identities
+		if okSt {
+			ph, isPhi := stripConv(uw.Common().Args[0]).(*ssa.Phi)
+			if !isPhi {
+				// make([]*Stanza, len(X)) filled by index: the element store comes before every
+				// edge back to the loop header
+				okSt = false
+				if refs := stripConv(uw.Common().Args[0]).Referrers(); refs != nil {
+					for _, ref := range *refs {
+						ia, isIA := ref.(*ssa.IndexAddr)
+						if !isIA || !bl[0].inLoop(ia.Block()) {
+							continue
+						}
+						for _, rr := range *ia.Referrers() {
+							st, isSt := rr.(*ssa.Store)
+							if !isSt || st.Addr != ssa.Value(ia) {
+								continue
+							}
+							all := true
+							for _, pr := range bl[0].Header.Preds {
+								if bl[0].blocks()[pr] && pr != bl[0].Header && !(st.Block() == pr || st.Block().Dominates(pr)) {
+									all = false
+								}
+							}
+							if all {
+								okSt = true
+							}
+						}
+					}
+				}
+				if !okSt {
+					why = " (the slice handed to the identities is not filled on every iteration)"
+				}
+			} else if _, every := appendsOnEveryIteration(bl[0], ph, func(v ssa.Value) bool {
+				_, n, known := tb.lenSym(v)
+				return known && n == 1
+			}); !every {
+				okSt = false
+				why = " (some iteration carries on without appending its stanza: that stanza is hidden from the identities, e.g. from the passphrase identity's only-stanza check)"
+			}
+		}
+	}
+	r.Check(okSt, dec.String(), "call:Unwrap:stanzas", r.pos(uw), "all header stanzas, in order", "identities are offered "+stArg+"\n   want "+want+" built by a complete loop"+why)
 }
 
 func hasFactShort(facts []Atom, want string) (Atom, bool) {
@@ -245,6 +305,53 @@ func checkSentinelLoop(p *Program, r *Result, fn *ssa.Function, callee string) {
 				if isNil && !loop.inLoop(s) {
 					okSuccess = true
 				}
+			}
+		}
+	}
+	if !okFatal || !okSuccess {
+		// `return unwrap(x)`: everything the call returned is handed on unchanged. That skips the
+		// remaining elements on the sentinel too, which is right only where there are none:
+		// under len(<the slice the loop ranges over>) == 1
+		ei := errorResultIndex(fn.Signature)
+		over := tb.Term(loop.Over).String()
+		for _, ret := range returnsOf(fn) {
+			if len(ret.Results) != 2 || ei != 1 {
+				continue
+			}
+			k, e := tb.Term(ret.Results[0]), tb.Term(ret.Results[1])
+			if !(k.Op == "Ext" && e.Op == "Ext" && k.S == "0" && e.S == "1" && k.Args[0].V == call.Value() && e.Args[0].V == call.Value()) {
+				continue
+			}
+			facts := tb.FactsAt(ret.Block())
+			if _, cond := errFactFor(facts, call.Value(), true); cond {
+				continue
+			}
+			if _, cond := errFactFor(facts, call.Value(), false); cond {
+				continue
+			}
+			if _, single := findFact(facts, func(a Atom) bool {
+				return a.Kind == "cmp" && a.Op == "==" && a.Y.S == "1" && isLenTerm(a.X) && len(a.X.Args) == 1 && a.X.Args[0].String() == over
+			}); single {
+				okFatal, okSuccess = true, true
+			}
+		}
+	}
+	// when every element was passed over, the result is the sentinel itself: a nil error (no
+	// element at all) or any other value would not be counted as "this identity does not match"
+	if fn.Name() != "Decrypt" {
+		for _, ret := range returnsOf(fn) {
+			if loop.inLoop(ret.Block()) || !p.completedAt(loop, ret.Block()) {
+				continue
+			}
+			ei := errorResultIndex(fn.Signature)
+			if ei < 0 || ei >= len(ret.Results) {
+				continue
+			}
+			if isNilConst(ret.Results[ei]) {
+				continue // success after the loop (the CLI's lazy identities): judged by their own rules
+			}
+			if !isSentinel(tb, ret.Results[ei]) {
+				r.Bad(fn.String(), "sentinel-loop:exhausted", r.pos(ret), "after all elements were passed over the function returns "+short(tb.Term(ret.Results[ei]).String())+", not the incorrect-identity sentinel (with no element at all this may even be nil)")
 			}
 		}
 	}
@@ -400,6 +507,22 @@ func checkHeaderStanzas(p *Program, r *Result, enc *ssa.Function) {
 		} else if len(p.loopEarlyExits(inner[0])) != 0 {
 			ok, detail = false, "the stanza loop can be left early"
 		} else {
+			// no iteration carries on without its append: every edge back to the stanza loop's
+			// header comes after the append, and every edge back to the recipient loop's header
+			// after the stanza loop has run to completion
+			for _, pr := range inner[0].Header.Preds {
+				if inner[0].blocks()[pr] && pr != inner[0].Header && !(site == pr || site.Dominates(pr) || p.feasDominates(site, pr)) {
+					ok, detail = false, "an iteration of the stanza loop carries on without appending its stanza to the header: the recipient could not decrypt the file"
+				}
+			}
+			for _, pr := range outer[0].Header.Preds {
+				if pr == inner[0].Header && len(p.loopEarlyExits(inner[0])) == 0 {
+					continue // the stanza loop's own exit edge
+				}
+				if outer[0].blocks()[pr] && pr != outer[0].Header && !p.completedAt(inner[0], pr) {
+					ok, detail = false, "an iteration of the recipient loop carries on without its stanzas having been appended to the header"
+				}
+			}
 			// the outer loop may be left early only by error returns
 			if len(p.loopEarlyExits(outer[0])) != 0 {
 				ok, detail = false, "the recipient loop can be left early (break)"
